@@ -399,6 +399,12 @@ func (e *Engine) callExternal(fn *types.Func, recv Value, args []Value, cx *ast.
 		}
 		e.assignTo(cx.Args[0], ns, st)
 		return VTuple{}
+	case "slices.Grow", "slices.Clip":
+		// capacity only: the same elements, the same length (slices are values in this verifier)
+		if sl, ok := args[0].(VSlice); ok {
+			return sl
+		}
+		unsup("%s of a non-slice at %s", name, e.src(cx))
 	case "slices.Max", "slices.Min":
 		sl, ok := args[0].(VSlice)
 		if !ok || sl.Len.Op != "int" || !sl.Len.Int.IsInt64() || sl.Len.Int.Int64() < 1 || sl.Len.Int.Int64() > 16 {
